@@ -198,6 +198,8 @@ func Run(c *engine.Ctx) {
 	crafted(c, fds)
 	stringContents(c, fds)
 	deepNesting(c, fds)
+	wideCollections(c, fds)
+	afterEdit(c, fds)
 	for _, b := range bases() {
 		b := b
 		if b.Label == "full20" && !c.Thorough() {
@@ -394,4 +396,127 @@ func deepNesting(c *engine.Ctx, fds []protoreflect.FieldDescriptor) {
 			})
 		}
 	}
+}
+
+// wideCollections: every list and map of the node with 33, 65 and 130 entries (either side of 32, 64, 128): a node
+// against itself and against an equal copy reports nothing; one entry changed at the first, a middle and the last
+// position is one differing attribute, reconstructible, in both directions.
+func wideCollections(c *engine.Ctx, fds []protoreflect.FieldDescriptor) {
+	c.Group("wide-collections")
+	sizes := []int{33, 65, 130}
+	c.Bound("wide-collections", fmt.Sprintf("node with %v entries in every list and map: self, equal copy, and one entry changed at position first / middle / last of every list- or map-valued attribute, both directions", sizes))
+	for _, size := range sizes {
+		size := size
+		mk := func() *sbom.Node {
+			n := &sbom.Node{}
+			gen.Full(n, "W", size)
+			return n
+		}
+		c.Case(func() any { return map[string]any{"entries": size, "pair": "self and equal copy"} }, func(t *engine.T) *engine.Violation {
+			n := mk()
+			if v := diffCase(t, fds, n, n, fmt.Sprint("wide-self", size)); v != nil {
+				return v
+			}
+			return diffCase(t, fds, mk(), mk(), fmt.Sprint("wide-copy", size))
+		})
+		for _, fd := range fds {
+			if !fd.IsList() && !fd.IsMap() {
+				continue
+			}
+			for _, pos := range []int{0, size / 2, size - 1} {
+				for dir := 0; dir < 2; dir++ {
+					fd, pos, dir := fd, pos, dir
+					c.Case(func() any {
+						return map[string]any{"entries": size, "attribute": string(fd.Name()), "changed-position": pos, "reverse": dir == 1}
+					}, func(t *engine.T) *engine.Violation {
+						n1, n2 := mk(), mk()
+						r := n2.ProtoReflect()
+						if fd.IsList() {
+							l := r.Mutable(fd).List()
+							if pos >= l.Len() {
+								return nil
+							}
+							switch fd.Kind() {
+							case protoreflect.StringKind:
+								l.Set(pos, protoreflect.ValueOfString(l.Get(pos).String()+"-changed"))
+							case protoreflect.EnumKind:
+								l.Set(pos, protoreflect.ValueOfEnum(fd.Enum().Values().Get(0).Number()))
+							case protoreflect.MessageKind:
+								m := l.Get(pos).Message()
+								mf := m.Descriptor().Fields()
+								for i := 0; i < mf.Len(); i++ {
+									if mf.Get(i).Kind() == protoreflect.StringKind && !mf.Get(i).IsList() && !mf.Get(i).IsMap() {
+										m.Set(mf.Get(i), protoreflect.ValueOfString(m.Get(mf.Get(i)).String()+"-changed"))
+										break
+									}
+								}
+							default:
+								return nil
+							}
+						} else {
+							mp := r.Mutable(fd).Map()
+							var ks []protoreflect.MapKey
+							mp.Range(func(k protoreflect.MapKey, _ protoreflect.Value) bool { ks = append(ks, k); return true })
+							sort.Slice(ks, func(a, b int) bool { return ks[a].Int() < ks[b].Int() })
+							if pos >= len(ks) || fd.MapValue().Kind() != protoreflect.StringKind {
+								return nil
+							}
+							mp.Set(ks[pos], protoreflect.ValueOfString(mp.Get(ks[pos]).String()+"-changed"))
+						}
+						if dir == 1 {
+							n1, n2 = n2, n1
+						}
+						return diffCase(t, fds, n1, n2, fmt.Sprint("wide", size, fd.Name(), pos, dir))
+					})
+				}
+			}
+		}
+	}
+}
+
+// afterEdit: a node is diffed, edited in place, and diffed again; the second report must be the report for a fresh copy
+// of the edited node (differential oracle: nothing remembered from the first call may steer the second).
+func afterEdit(c *engine.Ctx, fds []protoreflect.FieldDescriptor) {
+	c.Group("after-edit")
+	base := &sbom.Node{}
+	gen.Full(base, "A", 2)
+	devs := gen.Deviations(base, 2)
+	c.Bound("after-edit", fmt.Sprintf("%d in-place edits of a fully populated node between two Diff calls (as receiver and as argument); second report = report on a fresh copy", len(devs)))
+	for di := range devs {
+		di := di
+		c.Case(func() any { return map[string]string{"edit-after-first-diff": devs[di].Label} }, func(t *engine.T) *engine.Violation {
+			v, ref := proto.Clone(base).(*sbom.Node), proto.Clone(base).(*sbom.Node)
+			_, _ = v.Diff(ref), ref.Diff(v)
+			func() {
+				defer func() { _ = recover() }()
+				devs[di].Mutate(v.ProtoReflect())
+			}()
+			fresh := proto.Clone(v).(*sbom.Node)
+			t.Transitions(6)
+			t.Validated(2)
+			if a, b := snapDiff(v.Diff(ref)), snapDiff(fresh.Diff(ref)); a != b {
+				return engine.Violate("diff-sound", "after-edit", "after the in-place edit %s edited.Diff(base) differs from the same call on a fresh copy: %s", devs[di].Label, gen.SnapDiff(b, a))
+			}
+			if a, b := snapDiff(ref.Diff(v)), snapDiff(ref.Diff(fresh)); a != b {
+				return engine.Violate("diff-sound", "after-edit", "after the in-place edit %s base.Diff(edited) differs from the same call on a fresh copy: %s", devs[di].Label, gen.SnapDiff(b, a))
+			}
+			t.State("after-edit|" + devs[di].Label)
+			t.Outcome("after-edit-ok")
+			return nil
+		})
+	}
+}
+
+func snapDiff(d *sbom.NodeDiff) string {
+	if d == nil {
+		return "<nil>"
+	}
+	a, r := "<nil>", "<nil>"
+	if d.Added != nil {
+		a = gen.Canon(d.Added, nil)
+	}
+	if d.Removed != nil {
+		r = gen.Canon(d.Removed, nil)
+	}
+	return fmt.Sprintf("count=%d added=%s removed=%s", d.DiffCount, a, r)
 }
